@@ -2601,6 +2601,7 @@ int errBoundMode, double absErr_Bound, double relBoundRatio, double pwRelBoundRa
 		realPrecision = getRealPrecision_double(valueRangeSize, errBoundMode, absErr_Bound, relBoundRatio, &status);
 		confparams_cpr->absErrBound = realPrecision;
 	}
+	SZ_VERIF_YIELD(1);
 	if(valueRangeSize <= realPrecision)
 	{
 #ifdef HAVE_WRITESTATS
